@@ -5,6 +5,7 @@ from collections import Counter
 
 import common
 import specrun
+import upword
 from comb_spec_searcher.exception import SpecificationNotFound
 
 
@@ -147,6 +148,13 @@ def run_specs(pid, tier, seed, factor, judge):
             c = specrun.rand_config(rnd, "rot")
             c.update(rot="split", alpha="abc", db=rnd.choice(["RuleDB", "RuleDB", "RuleDBForgetStrategy"]), perc=rnd.choice([100, 100, 50]),
                      iterative=False, smallest=False)
+            cfgs.append(c)
+        # overlapping cycles of one-way rules (a rotation and its inverse, both one-way)
+        for _ in range(common.scale(tier, 32, 300) * factor):
+            c = specrun.rand_config(rnd, "rot")
+            c.update(rot="ow", alpha="abc", db=rnd.choice(["RuleDB", "RuleDB", "RuleDBForgetStrategy"]), perc=rnd.choice([100, 100, 50, 20]),
+                     iterative=False)
+            c["patterns"] = upword.rand_patterns(rnd, "abc", 3, 2)
             cfgs.append(c)
     outs = specrun.pool_map(worker, [(c, N) for c in cfgs])
     specrun.quiet()
